@@ -112,8 +112,12 @@ let judge _name ins outs =
   let ob_reparse = if full_expected then reparse_obs else None in
   let rec_n = int_of_string (get go "rec") in
   let err = get go "err" in
+  let startline = (match List.assoc_opt "sl" go with
+      | Some t -> let (a, b) = split1 ':' t in Some (chars_of_hex a, chars_of_hex b)
+      | None -> None) in
   let o = { ob_after = am; ob_fwd_same = (get go "fwd" = "1"); ob_sections = sections;
-            ob_reparse = ob_reparse; ob_records = nat_of_int rec_n; ob_err = (err <> "0") } in
+            ob_reparse = ob_reparse; ob_records = nat_of_int rec_n; ob_err = (err <> "0");
+            ob_startline = startline } in
   (* ---------------- property oracle on the real observation ---------------- *)
   if sec_err then VPropfail ("sections_partition", "reading-a-section-failed") else
   if not (forwarded_ok m o) || td_o <> td_a then
@@ -124,6 +128,11 @@ let judge _name ins outs =
                       else "fields=differ")
                      (show_msg m) (show_msg am) (get go "fwd") (get go "ufr") (get go "lfr")))
   else if not (sections_ok o) then VPropfail ("sections_partition", "hdr++body++trailer<>message")
+  else if not (startline_ok o) then
+    VPropfail ("start_line",
+               sp (match startline with
+                   | Some (a, b) -> "snapshot=" ^ show a ^ " forwarded/received=" ^ show b
+                   | None -> "?"))
   else if not (reparse_ok m o) then
     VPropfail ("snapshot_parseable",
                sp (match reparse_obs with
